@@ -27,7 +27,7 @@ def isInterleaving (n k : Nat) (ids : List Nat) : Bool :=
 def filters : List (Nat × Nat) := [(2, 0), (3, 1), (5, 4), (1, 0)]
 
 def receiver (cap : Nat) : EP :=
-  filters.foldl (fun e (f : Nat × Nat) => (make e ⟨f.1, f.2, 0, cap⟩).1) {}
+  filters.foldl (fun e (f : Nat × Nat) => (make e ⟨f.1, f.2, 0, cap, false⟩).1) {}
 
 /-- the receiving endpoint after the messages `ids` arrived in this order -/
 def deliver (k cap : Nat) (ids : List Nat) : EP :=
